@@ -7,9 +7,11 @@ pub fn family() -> Family {
     Family { name: "c07", cases, check }
 }
 
-struct Sink { out: Vec<u8>, per_call: usize, fail_at: Option<usize> }
+struct Sink { out: Vec<u8>, per_call: usize, fail_at: Option<usize>, fail_call: Option<usize>, calls: usize }
 impl Write for Sink {
     fn write(&mut self, buf: &[u8]) -> io::Result<usize> {
+        self.calls += 1;
+        if self.fail_call == Some(self.calls) { return Err(io::Error::new(io::ErrorKind::Other, "injected once")); }
         if let Some(f) = self.fail_at {
             if self.out.len() >= f { return Err(io::Error::new(io::ErrorKind::Other, "injected")); }
         }
@@ -52,6 +54,7 @@ fn cases(_ob: &str) -> Vec<String> {
             }
             out.push(format!("fail:{}:{}", oi, vi));
             out.push(format!("agree:{}:{}", oi, vi));
+            out.push(format!("failonce:{}:{}", oi, vi));
         }
     }
     out
@@ -74,7 +77,7 @@ fn check(case: &str) -> Option<String> {
     match p[0] {
         "short" => {
             let k: usize = p[3].parse().ok()?;
-            let mut s = Sink { out: vec![], per_call: k, fail_at: None };
+            let mut s = Sink { out: vec![], per_call: k, fail_at: None, fail_call: None, calls: 0 };
             let r = print_to(&mut s, &v, &o);
             match r {
                 Ok(()) => if s.out != full.as_bytes() {
@@ -90,10 +93,21 @@ fn check(case: &str) -> Option<String> {
         }
         "fail" => {
             for at in 0..=full.len() {
-                let mut s = Sink { out: vec![], per_call: usize::MAX, fail_at: Some(at) };
+                let mut s = Sink { out: vec![], per_call: usize::MAX, fail_at: Some(at), fail_call: None, calls: 0 };
                 let r = print_to(&mut s, &v, &o);
                 if at < full.len() && r.is_ok() { return Some(format!("options {}: error injected at offset {} of {:?} but the call returned Ok", oname, at, full)); }
                 if !full.as_bytes().starts_with(&s.out) { return Some(format!("options {}: bytes delivered before the error are not a prefix", oname)); }
+            }
+            None
+        }
+        "failonce" => {
+            // a transient error at the k-th write call: the print call must fail (an Ok with missing bytes is a swallowed error)
+            for k in 1..40usize {
+                let mut s = Sink { out: vec![], per_call: usize::MAX, fail_at: None, fail_call: Some(k), calls: 0 };
+                let r = print_to(&mut s, &v, &o);
+                if s.calls < k { break; }
+                if r.is_ok() { return Some(format!("options {}: write call #{} failed once but printing {:?} returned Ok with {:?}", oname, k, full, String::from_utf8_lossy(&s.out))); }
+                if !full.as_bytes().starts_with(&s.out) { return Some(format!("options {}: after a transient error delivered bytes are not a prefix", oname)); }
             }
             None
         }
